@@ -163,7 +163,8 @@ func opPathsOf(o fsx.Op) []string {
 	case "Symlink":
 		return []string{o.Q}
 	case "Getwd":
-		return nil
+		// classified through ".": tells whether the current directory was removed or renamed since it was entered.
+		return []string{"."}
 	}
 
 	if strings.HasPrefix(o.K, "F") {
@@ -212,6 +213,10 @@ func (w *e1World) sigPrefix(o fsx.Op, classes []string) string {
 	case "Truncate", "FTruncate":
 		if o.Size < 0 {
 			s += "(negative)"
+		}
+	case "EvalSymlinks":
+		if !strings.HasPrefix(o.P, "/") {
+			s += "(relative)"
 		}
 	case "Glob":
 		s += "(" + patternShape(o.P) + ")"
@@ -406,9 +411,18 @@ func (w *e1World) step(c *sim.Ctx, prop string, i int, o fsx.Op, env *fsx.Env, u
 	}
 
 	if (o.K == "Chdir" || o.K == "FChdir") && out.a.Err == "ok" {
-		// the directory the library believes to be in (symbolic links resolved).
+		// the directory the library believes to be in (symbolic links resolved) is the one the kernel is in.
 		if wd, err := env.VFS.Getwd(); err == nil {
 			w.cwd = wd
+		}
+
+		if kr, err := w.k.call(kReq{Cmd: "exec", Op: fsx.Op{K: "Getwd"}}); err == nil && kr.Res.Err == "ok" && kr.Res.Data != w.cwd {
+			out.violation = &sim.Violation{
+				Prop: prop, Class: "cwd-differs", Sig: pre + " => the current directory differs after the call",
+				Msg: fmt.Sprintf("call %d %s: Linux is in %q, %s in %q", i, o, kr.Res.Data, w.kind, w.cwd),
+			}
+
+			return out
 		}
 	}
 
@@ -436,4 +450,13 @@ func (w *e1World) avoided(c *sim.Ctx, prop string, o fsx.Op) bool {
 	}
 
 	return c.KS.Avoided(prop, w.sigPrefix(o, rs.Classes))
+}
+
+// insteadOf is the harmless query issued in place of a call that a filtered run steers clear of.
+func insteadOf(o fsx.Op) fsx.Op {
+	if o.P == "" {
+		return fsx.Op{K: "Lstat", P: "."}
+	}
+
+	return fsx.Op{K: "Lstat", P: o.P}
 }
